@@ -1,7 +1,7 @@
 (* C11 — proofs about the strategy-level model: the victim lists contain only eligible pods, are
    permutations of the eligible pods, and are sorted by the published order. *)
 From Coq Require Import List ZArith Bool Lia Permutation Sorted.
-From Verif Require Import Lib.ListX Lib.SortX Lib.SortOn C11.Model C11.Spec C11.ModelEvict C11.SpecEvict.
+From Verif Require Import Lib.ListX Lib.SortX Lib.SortOn C11.Model C11.Spec C11.Proofs C11.ModelEvict C11.SpecEvict.
 Import ListNotations.
 Open Scope Z_scope.
 
@@ -82,18 +82,52 @@ Proof. apply sort_by_perm. Qed.
    sorted by (priority, usage with metric-less pods last, name) *)
 Definition has_prio (p : epod) : Prop := p_prionil p = false.
 
+(* lexicographic <= on equal-length integer keys *)
+Fixpoint lexle (k1 k2 : list Z) : bool :=
+  match k1, k2 with
+  | x :: t1, y :: t2 => if x <? y then true else if y <? x then false else lexle t1 t2
+  | _, _ => true
+  end.
+
+Lemma lexle_total k1 : forall k2, lexle k1 k2 = true \/ lexle k2 k1 = true.
+Proof.
+  induction k1 as [|x t1 IH]; intros [|y t2]; cbn [lexle]; auto.
+  destruct (Z.ltb_spec x y); destruct (Z.ltb_spec y x); auto; try lia.
+Qed.
+
+Lemma lexle_trans k1 : forall k2 k3, length k1 = length k2 -> length k2 = length k3 ->
+  lexle k1 k2 = true -> lexle k2 k3 = true -> lexle k1 k3 = true.
+Proof.
+  induction k1 as [|x t1 IH]; intros [|y t2] [|z t3] L1 L2; cbn [lexle length] in *;
+    try discriminate; auto.
+  injection L1 as L1. injection L2 as L2.
+  destruct (Z.ltb_spec x y); destruct (Z.ltb_spec y x); destruct (Z.ltb_spec y z);
+    destruct (Z.ltb_spec z y); destruct (Z.ltb_spec x z); destruct (Z.ltb_spec z x);
+    intros; try reflexivity; try discriminate; try lia.
+  all: eapply (IH t2 t3); eauto.
+Qed.
+
+Definition be_mem_key (p : epod) : list Z :=
+  [p_prio p; if used_be p =? 0 then 1 else 0;
+   if used_be p =? 0 then - p_id p else - used_be p; p_id p].
+
+Lemma be_mem_leb_key a b :
+  has_prio a -> has_prio b -> be_mem_leb a b = lexle (be_mem_key a) (be_mem_key b).
+Proof.
+  unfold has_prio. intros Ha Hb. unfold be_mem_leb, be_mem_less, be_mem_key. rewrite Ha, Hb.
+  cbn [negb andb lexle]. generalize (used_be a) (used_be b). intros ua ub.
+  bool_cases; cbn; try reflexivity; try lia.
+Qed.
+
 Lemma be_mem_leb_total_on : total_on be_mem_leb has_prio.
 Proof.
-  intros a b Ha Hb. unfold has_prio in *. unfold be_mem_leb, be_mem_less. rewrite Ha, Hb.
-  cbn [negb andb]. generalize (used_be a) (used_be b). intros ua ub.
-  bool_cases; cbn; auto; try lia.
+  intros a b Ha Hb. rewrite !be_mem_leb_key by assumption. apply lexle_total.
 Qed.
 
 Lemma be_mem_leb_trans_on : trans_on be_mem_leb has_prio.
 Proof.
-  intros a b c Ha Hb Hc. unfold has_prio in *. unfold be_mem_leb, be_mem_less.
-  rewrite Ha, Hb, Hc. cbn [negb andb]. generalize (used_be a) (used_be b) (used_be c).
-  intros ua ub uc. bool_cases; cbn; intros; try reflexivity; try discriminate; try lia.
+  intros a b c Ha Hb Hc. rewrite !be_mem_leb_key by assumption.
+  apply lexle_trans; reflexivity.
 Qed.
 
 Lemma be_mem_leb_not_less a b :
@@ -124,4 +158,107 @@ Proof.
     + exact (sorted_split_lt _ _ _ _ _ _ _ Hs Heq).
   - eapply NoDup_map_perm; [apply Permutation_sym, build_be_mem_perm|].
     apply NoDup_map_filter. exact Hnd.
+Qed.
+
+(* ---------- strategy level: every victim of an end-to-end run is eligible ---------- *)
+(* the policy under which feature f may take pod p (memoryEvict / cpuEvict):
+   f = 0: best-effort QoS; f = 1, 2: active, priority not above the configured threshold,
+   eviction enabled, usage known; always: not opted out of feature f by its policy annotation *)
+Definition elig_for (c : ecfg) (f : Z) (p : epod) : bool :=
+  if f =? 0 then eligible_be 0 p
+  else if f =? 1 then eligible_prio 1 (c_aprio c) p
+  else if f =? 2 then eligible_prio 2 (c_evthr c) p
+  else false.
+
+Lemma elig_for_allowed c f p : elig_for c f p = true -> allow f p = true.
+Proof.
+  unfold elig_for, eligible_be, eligible_prio.
+  destruct (Z.eqb_spec f 0); [subst; intros H; apply andb_true_iff in H; tauto|].
+  destruct (Z.eqb_spec f 1);
+    [subst; intros H; repeat (apply andb_true_iff in H; destruct H as [H ?]); assumption|].
+  destruct (Z.eqb_spec f 2);
+    [subst; intros H; repeat (apply andb_true_iff in H; destruct H as [H ?]); assumption|].
+  discriminate.
+Qed.
+
+Definition ptasks_eligible (c : ecfg) (pods : list epod) (pts : list ptask) : Prop :=
+  forall pt i, In pt pts -> In i (pt_infos pt) ->
+    In (i_pod i) pods /\ elig_for c (pt_feature pt) (i_pod i) = true.
+
+Lemma mem_ptasks_eligible c pods : ptasks_eligible c pods (mem_ptasks c pods).
+Proof.
+  unfold ptasks_eligible, mem_ptasks. intros pt i Hpt Hi.
+  destruct (c_cap c <=? 0); [destruct Hpt|].
+  apply in_app_or in Hpt. destruct Hpt as [Hpt|Hpt].
+  { destruct (feat c 0 && used_cfg_ok c && negb (is_nil (used_need c))); [|destruct Hpt].
+    destruct Hpt as [<-|[]]. cbn [pt_infos pt_feature] in *.
+    apply in_map_iff in Hi. destruct Hi as [p [<- Hp]]. cbn [i_pod].
+    apply build_be_mem_in in Hp. unfold elig_for. cbn. tauto. }
+  apply in_app_or in Hpt. destruct Hpt as [Hpt|Hpt].
+  { destruct (feat c 1 && alloc_cfg_ok c && negb (is_nil (alloc_need 1 c pods))); [|destruct Hpt].
+    destruct Hpt as [<-|[]]. cbn [pt_infos pt_feature] in *.
+    apply in_map_iff in Hi. destruct Hi as [p [<- Hp]]. cbn [i_pod].
+    apply build_prio_in in Hp. unfold elig_for. cbn. tauto. }
+  { destruct (feat c 2 && used_cfg_ok c && c_evthrF c && negb (is_nil (used_need c))); [|destruct Hpt].
+    destruct Hpt as [<-|[]]. cbn [pt_infos pt_feature] in *.
+    apply in_map_iff in Hi. destruct Hi as [p [<- Hp]]. cbn [i_pod].
+    apply build_prio_in in Hp. unfold elig_for. cbn. tauto. }
+Qed.
+
+Lemma cpu_ptasks_eligible c pods : ptasks_eligible c pods (cpu_ptasks c pods).
+Proof.
+  unfold ptasks_eligible, cpu_ptasks. intros pt i Hpt Hi.
+  destruct (c_cap c <=? 0); [destruct Hpt|].
+  apply in_app_or in Hpt. destruct Hpt as [Hpt|Hpt].
+  { destruct (feat c 1 && alloc_cfg_ok c && negb (is_nil (alloc_need 1000 c pods))); [|destruct Hpt].
+    destruct Hpt as [<-|[]]. cbn [pt_infos pt_feature] in *.
+    apply in_map_iff in Hi. destruct Hi as [p [<- Hp]]. cbn [i_pod].
+    apply build_prio_in in Hp. unfold elig_for. cbn. tauto. }
+  { destruct (feat c 2 && used_cfg_ok c && c_evthrF c && negb (is_nil (used_need c))); [|destruct Hpt].
+    destruct Hpt as [<-|[]]. cbn [pt_infos pt_feature] in *.
+    apply in_map_iff in Hi. destruct Hi as [p [<- Hp]]. cbn [i_pod].
+    apply build_prio_in in Hp. unfold elig_for. cbn. tauto. }
+Qed.
+
+Lemma entry_at_to_tasks pts j k e :
+  entry_at (to_tasks pts) j k = Some e ->
+  exists pt i, nth_error pts j = Some pt /\ nth_error (pt_infos pt) k = Some i
+               /\ e_pod e = p_id (i_pod i).
+Proof.
+  unfold entry_at, to_tasks. rewrite nth_error_map.
+  destruct (nth_error pts j) as [pt|] eqn:Hj; cbn [option_map]; [|discriminate].
+  cbn [t_pods]. rewrite nth_error_map.
+  destruct (nth_error (pt_infos pt) k) as [i|] eqn:Hk; cbn [option_map]; [|discriminate].
+  intros H. inversion H; subst. exists pt, i. cbn [e_pod]. repeat split. exact Hk.
+Qed.
+
+(* every Evict call and every already-evicted hit of an end-to-end run concerns a pod of the
+   node's pod set that the policy of the calling feature allows, whatever the executor does *)
+Lemma strategy_victims_eligible c pods pts pend okf :
+  ptasks_eligible c pods pts ->
+  forall pre ev suf,
+    fst (kill_and_evict pend okf (to_tasks pts)) = pre ++ ev :: suf ->
+    exists pt i, nth_error pts (ev_rt ev) = Some pt /\ nth_error (pt_infos pt) (ev_k ev) = Some i
+                 /\ In (i_pod i) pods /\ elig_for c (pt_feature pt) (i_pod i) = true.
+Proof.
+  intros He pre ev suf Heq.
+  destruct (model_every_split pend okf (to_tasks pts) pre ev suf Heq) as [[Hrt [e Hent]] _].
+  unfold ev_entry in Hent. destruct (entry_at_to_tasks _ _ _ _ Hent) as [pt [i [Hpt [Hi _]]]].
+  exists pt, i. rewrite Hrt. split; [exact Hpt|]. split; [exact Hi|].
+  apply He; [eapply nth_error_In; exact Hpt|eapply nth_error_In; exact Hi].
+Qed.
+
+Lemma build_prio_in_spec f thr sub pods p :
+  In p (build_prio f thr sub pods) <->
+  In p pods /\ p_active p = true /\ allow f p = true /\ eff_prio p <= thr
+  /\ p_enabled p = true /\ p_hasmetric p = true.
+Proof.
+  rewrite build_prio_in. unfold eligible_prio. rewrite !andb_true_iff, Z.leb_le. tauto.
+Qed.
+
+Lemma build_be_in_spec f pods p :
+  (In p (build_be_mem f pods) <-> In p pods /\ p_be p = true /\ allow f p = true)
+  /\ (In p (build_be_cpu f pods) <-> In p pods /\ p_be p = true /\ allow f p = true).
+Proof.
+  rewrite build_be_mem_in, build_be_cpu_in. unfold eligible_be. rewrite !andb_true_iff. tauto.
 Qed.
